@@ -142,8 +142,18 @@ def generate(seed, tier):
         o['conf'].update(pfs=True, modp_only=True, single=False, ike_lifetime=r.choice([8, 12, 20]), slow_dh=False)
         o['both_initiate'] = True
         o['forced'] = 5
+    refpeer = not lossy and r.random() < 0.1
+    if refpeer:
+        # the other end is the active reference responder (conforming third party: INVALID_KE_PAYLOAD also on an IKE_SA rekey, keeping the
+        # IKE_SA; own preference order; nonces of 16..256 octets): "both hold identical IKE_SA key material" is then a statement about the
+        # daemon and an independent implementation
+        o['conf'].update(auth='psk', ike_lifetime=r.choice([6, 10, 16]), slow_dh=False, modp_only=r.random() < 0.5, single=False)
+        o['both_initiate'] = False
     sc = workload.pair_scenario(seed, PROP, o)
     sc['meta']['batch'] = 'lossy' if lossy else 'lossless'
+    if refpeer:
+        workload.to_refpeer(sc, r, {'invalid_ke_on_ike_rekey': True})
+        return sc
     if not lossy and r.random() < 0.2:
         # two IKE_SAs between the same peers (both ends initiate), and an outage that swallows the first transmission of a CREATE_CHILD_SA
         # request; before its retransmission the same endpoint has something to negotiate on the sibling IKE_SA (its CHILD_SAs were made
@@ -171,6 +181,8 @@ def run(scenario):
         ctx['tap'] = Wiretap(w)
         ctx['kr'] = KeyringMonitor(w, ctx['tap'])
         ctx['packets'] = []
+        if scenario.get('refpeer'):
+            ctx['peer'] = workload.attach_refpeer(w, scenario)
         if scenario.get('byz'):
             from sim import byz
             from sim.interpose import Interposer
@@ -227,6 +239,41 @@ def run(scenario):
     def at_end(w, ctx):
         tap = ctx['tap']
         reach = ctx.setdefault('reach', {})
+        if scenario.get('refpeer'):
+            peer = ctx['peer']
+            reach['batch.refpeer'] = 1
+            names = ('d', 'ai', 'ar', 'ei', 'er', 'pi', 'pr')
+            for spis, ent in ctx['kr'].seen.items():
+                s_ = peer.sessions.get(spis[1])
+                if s_ is None or s_.spi_i != spis[0] or 'A' not in ent:
+                    continue
+                reach['ike_keyrings_compared'] = reach.get('ike_keyrings_compared', 0) + 1
+                if peer._generation(s_):
+                    reach['ike_rekey_generations'] = max(reach.get('ike_rekey_generations', 0), peer._generation(s_))
+                ref = tuple(s_.keys[n_] for n_ in names)
+                if ent['A'] != ref:
+                    bad = ['sk_' + n_ for n_, x_, y_ in zip(names, ent['A'], ref) if x_ != y_]
+                    return w.violation(PROP, 'peers_hold_different_ike_keys', {'keys': '+'.join(bad), 'peer': 'reference', 'generation': peer._generation(s_)},
+                                       f'IKE_SA {spis[0].hex()}/{spis[1].hex()} (rekey generation {peer._generation(s_)}): the daemon and the reference '
+                                       f'responder, which answered every exchange of it, differ in {bad}')
+            idx = newsa_index(w.nodes['A'])
+            a_addr = scenario['meta']['a_addr']
+            for ch in peer.children:
+                proto = PROTO_NUM.get(ch['proto'])
+                km = ch['keymat']
+                for key, want, who in (((_addr_raw(peer.addr), proto, ch['spi_resp']), (km['ei'], km['ai']), 'outbound'),
+                                       ((_addr_raw(a_addr), proto, ch['spi_init']), (km['er'], km['ar']), 'inbound')):
+                    rec = idx.get(key)
+                    if rec is None:
+                        continue
+                    c_, a_ = alg(rec, K['XFRMA_ALG_CRYPT']), alg(rec, K['XFRMA_ALG_AUTH'])
+                    reach['children_compared'] = reach.get('children_compared', 0) + 1
+                    if ((c_[2] if c_ else b''), (a_[2] if a_ else b'')) != want:
+                        return w.violation(PROP, 'keys_not_those_of_the_direction', {'kind': 'initial' if ch['initial'] else ('rekey' if ch['rekey_of'] else 'additional'),
+                                                                                   'pfs': ch['pfs'], 'swapped': False, 'peer': 'reference'},
+                                           f'CHILD_SA {ch["spi_init"].hex()}/{ch["spi_resp"].hex()} granted by the reference responder: the daemon\'s {who} SA does '
+                                           f'not carry the KEYMAT slice of its direction')
+            return
         for p in tap.problems:
             if p['kind'] in ('cannot_open_protected_message', 'ike_rekey_skeyseed_prf'):
                 # conformance with the RFC key schedule is C04's statement; here it only limits what can be judged below
@@ -281,7 +328,7 @@ def run(scenario):
     st = workload.base_stats(w, ctx['cov'], {'reach': reach, 'nontrivial': reach.get('children_compared', 0) >= 2})
     import hashlib
     chosen = sorted({(c['proto'], c['encr_bits'], c['integ'], c['transport'], c['pfs'], bool(c['rekey_of'])) for c in tap.children})
-    st['sig'] = hashlib.sha256(repr((configs.suite_signature(scenario['nodes']['A']['conf']), configs.suite_signature(scenario['nodes']['B']['conf']),
+    st['sig'] = hashlib.sha256(repr((configs.suite_signature(scenario['nodes']['A']['conf']), configs.suite_signature((scenario.get('refpeer') or scenario['nodes'].get('B'))['conf']),
                                      chosen, scenario['meta']['family'], scenario['meta']['auth'],
                                      tap.counts.get('max_generation', 0))).encode()).hexdigest()[:16]
     if scenario.get('seed', 0) % 59 == 0 or w.violations:
